@@ -177,8 +177,8 @@ def gen_cases(rng, tier):
                                     len0=0, src=(0, 1, 3)[idx % 3], fin=-1, ops=list(seq))))
             idx += 1
     if tier == "thorough":
-        # all lead-respecting interleavings of length 16, capacities 1..4
-        for cap in (1, 2, 3, 4):
+        # all lead-respecting interleavings of length 16, capacities 1..3
+        for cap in (1, 2, 3):
             def rec(prefix, d):
                 if len(prefix) == 16:
                     yield list(prefix)
@@ -205,8 +205,8 @@ def gen_cases(rng, tier):
                                                 src=idx % 2, fin=-1, ops=ops)))
                         idx += 1
     # 3. random long schedules with sign-flipping leads up to the capacity
-    n_rand = 160 if tier == "quick" else 1500
-    steps = 1000 if tier == "quick" else 2500
+    n_rand = 160 if tier == "quick" else 500
+    steps = 1000 if tier == "quick" else 1500
     for k in range(n_rand):
         r = rng.fork(f"walk{k}")
         cap = r.choice([1, 1, 2, 2, 3, 3, 4, 5, 7, 8, 16, 33, 64])
@@ -215,7 +215,7 @@ def gen_cases(rng, tier):
         items.append(build(dict(kind="walk", nch=r.choice([1, 1, 2]), store=r.below(4), cap=cap, start=r.below(cap),
                                 len0=0, src=r.choice([0, 1, 3]), fin=-1, ops=ops)))
     # 4. finite sources (signal::from_iter): schedules that run past the end
-    for k in range(60 if tier == "quick" else 600):
+    for k in range(60 if tier == "quick" else 300):
         r = rng.fork(f"fin{k}")
         cap = r.choice([1, 2, 3, 4, 8])
         fin = r.range(0, 30)
@@ -224,7 +224,7 @@ def gen_cases(rng, tier):
         items.append(build(dict(kind="finite", nch=r.choice([1, 2]), store=r.below(4), cap=cap, start=r.below(cap),
                                 len0=0, src=r.choice([0, 1, 2, 2, 3]), fin=fin, ops=ops)))
     # 5. malformed stream: leads beyond the capacity (frames are lost), non-empty / invalid ring buffers
-    for k in range(120 if tier == "quick" else 1200):
+    for k in range(120 if tier == "quick" else 600):
         r = rng.fork(f"over{k}")
         cap = r.choice([1, 1, 2, 3, 4, 8])
         ops = walk(r, cap, r.range(10, 120), overrun=True)
@@ -241,6 +241,24 @@ def gen_cases(rng, tier):
     return items, n_exh
 
 
+def find_abort(binpath, items):
+    """index of a case on which the harness process dies (abort = a non-unwinding panic, e.g. one of
+    std's unsafe-precondition checks firing inside the crate), by bisection; None if none does"""
+    def dies(lo, hi):
+        rc, _, _ = F.run_bin(binpath, [it["line"] for it in items[lo:hi]])
+        return rc != 0
+    lo, hi = 0, len(items)
+    if not dies(lo, hi):
+        return None
+    while hi - lo > 1:
+        mid = (lo + hi) // 2
+        if dies(lo, mid):
+            hi = mid
+        else:
+            lo = mid
+    return lo
+
+
 def load_corpus():
     d = os.path.join(F.VERIF, "corpus", PROP)
     items = []
@@ -254,6 +272,12 @@ def load_corpus():
 def main(rep, tier, seed):
     rng = F.Rng(seed)
     info = F.standard_proof_phase(rep, PROP)
+    # the executable model is not in the closure of props/C12.v: build it on its own so that it
+    # still runs (and the failing input can be searched for) when a proof is broken
+    mok, mlog = F.coq_make("theories/Signal/ForkRun.vo")
+    if not mok:
+        rep.violation("model_build", {"kind": "the executable model does not compile", "log": mlog[-4000:]}, no_input=True)
+        return finish(rep, info, 0, 0, {}, [])
     ok, blog, binpath = F.harness_build(BIN)
     if not ok:
         rep.violation("harness_build", {"kind": "harness does not build against /repo", "log": blog[-4000:]}, no_input=True)
@@ -265,6 +289,18 @@ def main(rep, tier, seed):
     K = 61
     items = [items[j] for i in range(K) for j in range(i, len(items), K)]
     outl, bad, errors = F.correspond(binpath, items, HEADER, CHECK, "c12")
+    if any(name == "harness" for name, _ in errors):
+        idx = find_abort(binpath, items)
+        if idx is not None:
+            small = F.shrink_ops(items[idx], build, lambda c: F.run_bin(binpath, [c["line"]])[0] != 0)
+            rc, out, err = F.run_bin(binpath, [small["line"]])
+            rep.violation(f"abort{idx}", {
+                "kind": "the implementation aborts the process on this case (non-unwinding panic: an unsafe-precondition check or a panic during unwinding inside the crate) where the proved model returns normally",
+                "case": {k: small[k] for k in KEYS if k in small}, "harness_line": small["line"],
+                "exit_code": rc, "stderr": err[-1500:], "lead_respected": simulate(small)["valid"],
+                "original_case_index": idx, "replay": "./check.py C12 --replay <this file>"})
+            errors = [e for e in errors if e[0] != "harness"] + [("harness", "aborted, see the abort replay file")]
+            return finish(rep, info, 0, 0, {"harness_aborted_on_case": small["line"]}, [small["line"]], [idx])
     for name, msg in errors:
         rep.violation("correspondence_error_" + name.replace("/", "_"),
                       {"kind": "correspondence could not be evaluated", "where": name, "log": msg}, no_input=True)
@@ -348,7 +384,7 @@ def finish(rep, info, n, nontriv, dist, samples, bad=(), verdict_bad=0):
             "modelled, not verified: RefCell/Rc/& sharing of ForkShared as one functional state threaded through the branch operations; the source signal as a function nat -> frame with a pull counter; usize as nat; the Bounded model of Ring/Bounded.v (tied by C06)"],
         "theorems": th, "axioms_reported": info.get("axioms", []),
         "evaluations": n, "distinct_nontrivial": nontriv,
-        "rule": "all 2^12 next_A/next_B interleavings for capacities 1..3 (ring-buffer start, storage kind, source kind, mono/stereo rotated), re-split/by_rc at every cut of all valid length-5 schedules, random 1000-step lead walks between +-capacity with re-splits and by_rc, finite sources, overrunning and malformed-constructor cases; non-trivial = a well-formed lead-respecting schedule in which the lead reaches the capacity or the pending flag flips at least twice",
+        "rule": "all 2^12 next_A/next_B interleavings for capacities 1..3 (ring-buffer start, storage kind, source kind, mono/stereo rotated), re-split/by_rc at every cut of all valid length-5 schedules, 160 random 1000-step lead walks between +-capacity (capacities 1..64) with re-splits and by_rc, finite sources, overrunning and malformed-constructor cases (thorough: plus every lead-respecting interleaving of length 16 for capacities 1..3 and 500 walks of 1500 steps); non-trivial = a well-formed lead-respecting schedule in which the lead reaches the capacity or the pending flag flips at least twice",
         "samples": samples, "input_distribution": dist, "disagreements": len(bad),
         "property_verdict_failures_on_implementation": verdict_bad,
         "explanation": "theorems: refinement of the Fork model to two stream positions for all capacities, ring-buffer starts and lead-respecting schedules (frames, pull counter, pending counts, queue contents), re-split identity, behaviour on overrun; tie: the model's executable definitions run by coqc on the same cases as the real crate, all observations compared exactly, and the property's verdict re-evaluated on the implementation's observations",
@@ -361,10 +397,10 @@ def replay(path):
     j = json.load(open(path))
     it = build(j["case"])
     ok, blog, binpath = F.harness_build(BIN)
-    rc, out, _ = F.run_bin(binpath, [it["line"]])
+    rc, out, err = F.run_bin(binpath, [it["line"]])
     _, model = F.coq_eval("c12", HEADER, f"run_case ({it['coq']})")
     print("case:", it["line"])
-    print("implementation:", out)
+    print("implementation:", out if rc == 0 else f"process died rc={rc}: {err[-300:]}")
     print("model:", model)
     o, bad, errs = F.correspond(binpath, [it], HEADER, CHECK, "c12_replay")
     sim = simulate(it)
